@@ -82,7 +82,12 @@ def draw_stacking_context(stream, stacking_context):
             set_mask_border(stream, box)
             # The canvas background was removed by layout_backgrounds
             draw_background(stream, box.background)
-            draw_border(stream, box)
+            collapsed_cell = (
+                isinstance(box, boxes.TableCellBox) and
+                box.style['border_collapse'] == 'collapse')
+            if not collapsed_cell:
+                # Collapsed borders are drawn by the table
+                draw_border(stream, box)
 
         with stacked(stream):
             # Dont clip the page box, see #35.
